@@ -209,4 +209,20 @@ theorem mem_of_lookup_eq_some {K V' : Type} [BEq K] [LawfulBEq K] :
       exact List.mem_cons_of_mem _ (mem_of_lookup_eq_some h)
 
 
+/-- a key absent from the first part of an association list is looked up in the rest -/
+theorem lookup_append_of_not_mem {K V : Type} [BEq K] [LawfulBEq K] (k : K) :
+    ∀ (l₁ l₂ : List (K × V)), k ∉ l₁.map Prod.fst → (l₁ ++ l₂).lookup k = l₂.lookup k
+  | [], _, _ => rfl
+  | (k', v) :: rest, l₂, h => by
+    simp only [List.map_cons, List.mem_cons, not_or] at h
+    have hne : (k == k') = false := by simpa using h.1
+    simp only [List.cons_append, List.lookup_cons, hne]
+    exact lookup_append_of_not_mem k rest l₂ h.2
+
+/-- the first entry with the key wins -/
+theorem lookup_append_cons_self {K V : Type} [BEq K] [LawfulBEq K] (k : K) (v : V) (l₁ l₂ : List (K × V))
+    (h : k ∉ l₁.map Prod.fst) : (l₁ ++ (k, v) :: l₂).lookup k = some v := by
+  rw [lookup_append_of_not_mem k l₁ _ h]
+  simp
+
 end QV.Cb
